@@ -49,6 +49,8 @@ var Corpus = []Op{
 	{Name: "merge-across-type-conditions-list", Query: `{ users { friends { id } } node(id:"1") { owner { id name nick } ... on User { owner { plain } } ... on Post { owner { plainReq } } } items { ... on Entity { id } } }`},
 	{Name: "scalar-lists", Query: `{ me { blobs blobsReq } users { blobs } }`},
 	{Name: "scalar-lists-nonnull-parent", Query: `{ me { boss { blobsReq } best { blobsReq blobs } } }`},
+	{Name: "method-backed", Query: `{ me { gauge { low high note } } users { gauge { id low high } } }`},
+	{Name: "eager-marshal-lists", Query: `{ me { tone tones tonesReq tag tags } users { tonesReq tagsReq } }`},
 	{Name: "op-directive-pass", Query: `query @opguard(mode:"pass") { hello me { id } }`},
 	{Name: "multi-op", Query: `query A { hello } query B { maybe me { name } }`, OpName: "B"},
 	{Name: "mutation-serial", Query: `mutation { a: inc(by:1) b: setName(id:"1", name:"x") { id name best { name } } c: inc(by:2) }`},
